@@ -45,6 +45,7 @@ func fullDesc(p *PropSpec) *DescSpec {
 type labDesc struct {
 	label string
 	d     *DescSpec
+	quick bool // partial descriptors also used as getOwnPropertyDescriptor results in the quick tier
 }
 
 func cp(d *DescSpec) *DescSpec { x := *d; return &x }
@@ -53,7 +54,8 @@ func cp(d *DescSpec) *DescSpec { x := *d; return &x }
 // plus kind changes and single-field partial descriptors
 func descFamily(p *PropSpec, tier string) []labDesc {
 	var out []labDesc
-	add := func(l string, d *DescSpec) { out = append(out, labDesc{l, d}) }
+	add := func(l string, d *DescSpec) { out = append(out, labDesc{l, d, false}) }
+	addq := func(l string, d *DescSpec) { out = append(out, labDesc{l, d, true}) }
 	other := func(f int) []int { // other function identities (0 = undefined)
 		var r []int
 		for _, x := range []int{0, 1, 2} {
@@ -129,19 +131,19 @@ func descFamily(p *PropSpec, tier string) []labDesc {
 		add("invent", &DescSpec{Get: ip(1), C: bp(false)})
 	}
 	// single-field partial descriptors
-	add("partial", &DescSpec{})
-	add("partial", &DescSpec{Value: ip(1)})
+	addq("partial", &DescSpec{})
+	addq("partial", &DescSpec{Value: ip(1)})
 	add("partial", &DescSpec{Value: ip(2)})
 	add("partial", &DescSpec{W: bp(true)})
 	add("partial", &DescSpec{W: bp(false)})
 	add("partial", &DescSpec{E: bp(true)})
 	add("partial", &DescSpec{E: bp(false)})
 	add("partial", &DescSpec{C: bp(true)})
-	add("partial", &DescSpec{C: bp(false)})
-	add("partial", &DescSpec{Get: ip(0)})
-	add("partial", &DescSpec{Get: ip(1)})
+	addq("partial", &DescSpec{C: bp(false)})
+	addq("partial", &DescSpec{Get: ip(0)})
+	addq("partial", &DescSpec{Get: ip(1)})
 	add("partial", &DescSpec{Get: ip(2)})
-	add("partial", &DescSpec{Set: ip(0)})
+	addq("partial", &DescSpec{Set: ip(0)})
 	add("partial", &DescSpec{Set: ip(2)})
 	add("partial", &DescSpec{Set: ip(1)})
 	add("invalid", &DescSpec{Value: ip(1), Get: ip(1)})
@@ -168,7 +170,7 @@ func lattice(tier string) []LatCase {
 			surface = 0
 		}
 		out = append(out, LatCase{Kind: "lat", Mode: "js", Surface: surface, Target: t, Call: c, Label: label})
-		if goOK {
+		if goOK && (tier == "thorough" || n%3 == 0) {
 			out = append(out, LatCase{Kind: "lat", Mode: "go", Surface: surface, Target: t, Call: c, Label: label})
 		}
 	}
@@ -176,8 +178,17 @@ func lattice(tier string) []LatCase {
 	keyKinds := []int{1, 3, 4} // "a", "7", SYM
 	rot := 0
 	for _, ext := range bools {
-		for _, k0 := range keyKinds {
-			for _, p := range propVariants(k0, tier) {
+		for _, kx := range keyKinds {
+			for _, p := range propVariants(kx, tier) {
+				k0 := kx
+				if tier != "thorough" {
+					// quick tier: one pass over the variants, the key kind rotates
+					if kx != 1 {
+						continue
+					}
+					k0 = keyKinds[rot%3]
+					rot++
+				}
 				mk := func(k int) TargetSpec {
 					t := TargetSpec{Ext: ext, Proto: 1}
 					// an unrelated configurable property is always present
@@ -216,21 +227,15 @@ func lattice(tier string) []LatCase {
 						add(honestLabel(!r), t, CallSpec{Trap: "set", K: k0, V: v, RB: r}, true)
 					}
 				}
-				// getOwnPropertyDescriptor / defineProperty: in the quick tier the key kind rotates
+				// getOwnPropertyDescriptor / defineProperty
 				kk := k0
-				if tier != "thorough" {
-					if k0 != 1 {
-						continue
-					}
-					kk = keyKinds[rot%3]
-					rot++
-					t = mk(kk)
-				}
 				add(honestLabel(p == nil), t, CallSpec{Trap: "getOwnPropertyDescriptor", K: kk, RKind: "undef"}, true)
 				add("lie", t, CallSpec{Trap: "getOwnPropertyDescriptor", K: kk, RKind: "nonobj"}, false)
 				for _, ld := range descFamily(p, tier) {
 					empty := *ld.d == DescSpec{}
-					add(ld.label, t, CallSpec{Trap: "getOwnPropertyDescriptor", K: kk, RKind: "desc", RDesc: ld.d}, !empty)
+					if tier == "thorough" || ld.label != "partial" || ld.quick {
+						add(ld.label, t, CallSpec{Trap: "getOwnPropertyDescriptor", K: kk, RKind: "desc", RDesc: ld.d}, !empty)
+					}
 					add(ld.label, t, CallSpec{Trap: "defineProperty", K: kk, Desc: ld.d, RB: true}, true)
 				}
 				add("honest", t, CallSpec{Trap: "defineProperty", K: kk, Desc: &DescSpec{Value: ip(1)}, RB: false}, true)
